@@ -579,3 +579,10 @@ func (sn *SimNet) SetOnDeliver(f func(l *Link, dir int, n int)) {
 	sn.OnDeliver = f
 	sn.mu.Unlock()
 }
+
+// SetLatency changes the propagation delay of every link from now on.
+func (sn *SimNet) SetLatency(min, jitter time.Duration) {
+	sn.mu.Lock()
+	sn.MinLatency, sn.Jitter = min, jitter
+	sn.mu.Unlock()
+}
